@@ -35,6 +35,7 @@ let dispatch kind fields =
   | "LISTEN" -> K_listen.run_listen fields
   | "TIMED" -> K_timed.run_timed fields
   | "DETECT" -> K_detect.run_detect fields
+  | "CONFIG" -> K_config.run_config fields
   | _ -> failwith ("unknown kind " ^ kind)
 
 let () =
